@@ -145,6 +145,11 @@ Reset ==
 \* out of space is an environment fault (C10): the transaction is lost, nothing is claimed about
 \* its contents until the caller aborts; the error must be the MapFull class, never a panic.
 Faulted(e) == mapfull /\ e.res.c = "MapFull"
+\* the call failed with a storage error that no fault of the history explains: the executor made no
+\* observation (the transaction is unusable) and the rest of the transaction is skipped
+Dead(e) == "dead" \in DOMAIN e
+Verdict(e, prop, bad) ==
+  IF Faulted(e) THEN {} ELSE IF Dead(e) THEN {<<prop, "call_failed_with_" \o e.res.c>>} ELSE bad
 
 AddLike(name) ==
   /\ IsEv(name)
@@ -165,7 +170,7 @@ AddLike(name) ==
             ELSE (IF e.res.c # "Ok" THEN {<<IF name = "Add" THEN "C05" ELSE "C19", "valid_write_rejected">>} ELSE {})
                  \cup (IF post # AddOp(pre, e.id, e.tok) THEN {<<"C05", "write_effect">>} ELSE {})
                  \cup (IF post.updated # pre.updated \cup {e.id} THEN {<<"C06", "write_not_marked">>} ELSE {}))
-     IN /\ Report("VIOL", e, IF Faulted(e) THEN {} ELSE bad)
+     IN /\ Report("VIOL", e, Verdict(e, "C05", bad))
         /\ Bind(e, post)
   /\ l' = l + 1
   /\ UNCHANGED <<committed, caps, ccaps, mapfull>>
@@ -183,7 +188,7 @@ Del ==
                     THEN {IF DelRet(pre, e.id) THEN <<"C05", "delete_effect">> ELSE <<"C19", "delete_of_absent_item_changed_database">>}
                     ELSE {})
               \cup (IF DelRet(pre, e.id) /\ e.id \notin post.updated THEN {<<"C06", "delete_not_marked">>} ELSE {}))
-     IN /\ Report("VIOL", e, IF Faulted(e) THEN {} ELSE bad)
+     IN /\ Report("VIOL", e, Verdict(e, "C05", bad))
         /\ Bind(e, post)
   /\ l' = l + 1
   /\ UNCHANGED <<committed, caps, ccaps, mapfull>>
@@ -205,7 +210,7 @@ AddMany ==
          bad == CommonDefects(e) \cup ObsDefects(e.obs, post) \cup
                 (IF e.res.c # "Ok" THEN {<<"C05", "valid_write_rejected">>} ELSE {}) \cup
                 (IF post # FoldAdd(pre, e.items, 1) THEN {<<"C05", "write_effect">>} ELSE {})
-     IN /\ Report("VIOL", e, IF Faulted(e) THEN {} ELSE bad)
+     IN /\ Report("VIOL", e, Verdict(e, "C05", bad))
         /\ Bind(e, post)
   /\ l' = l + 1
   /\ UNCHANGED <<committed, caps, ccaps, mapfull>>
@@ -219,7 +224,7 @@ DelMany ==
                 (IF e.res.c # "Ok" THEN {<<"C05", "delete_failed">>} ELSE {}) \cup
                 (IF ~DelRetsOk(pre, e.dels, 1) THEN {<<"C05", "delete_return_value">>} ELSE {}) \cup
                 (IF post # FoldDel(pre, e.dels, 1) THEN {<<"C05", "delete_effect">>} ELSE {})
-     IN /\ Report("VIOL", e, IF Faulted(e) THEN {} ELSE bad)
+     IN /\ Report("VIOL", e, Verdict(e, "C05", bad))
         /\ Bind(e, post)
   /\ l' = l + 1
   /\ UNCHANGED <<committed, caps, ccaps, mapfull>>
@@ -232,7 +237,7 @@ Clear ==
          bad == CommonDefects(e) \cup ObsDefects(e.obs, post) \cup StaleDefects(e.obs, ClearOp(pre)) \cup
                 (IF e.res.c # "Ok" THEN {<<"C05", "clear_failed">>} ELSE {}) \cup
                 (IF post # ClearOp(pre) THEN {<<"C05", "clear_effect">>} ELSE {})
-     IN /\ Report("VIOL", e, IF Faulted(e) THEN {} ELSE bad)
+     IN /\ Report("VIOL", e, Verdict(e, "C05", bad))
         /\ Bind(e, post)
         /\ caps' = [caps EXCEPT ![e.i] = {}]
   /\ l' = l + 1
@@ -253,7 +258,7 @@ ChangeMetric ==
                 (IF e.to # pre.metric /\ ~NeedBuildRes(post) THEN {<<"C18", "no_build_demanded">>} ELSE {}) \cup
                 (IF (\A x \in Live(pre) : pre.store[x] \in DOMAIN rq) /\ post # ChangeMetricOp(pre, e.to, rq)
                  THEN {<<"C18", IF e.to = pre.metric THEN "same_metric_changed_something" ELSE "vectors_not_requantised">>} ELSE {})
-     IN /\ Report("VIOL", e, IF Faulted(e) THEN {} ELSE bad)
+     IN /\ Report("VIOL", e, Verdict(e, "C18", bad))
         /\ Bind(e, post)
         /\ caps' = IF e.to = pre.metric THEN caps ELSE [caps EXCEPT ![e.i] = {}]
   /\ l' = l + 1
